@@ -78,6 +78,26 @@ def run(rng, tier, res=None, metrics=None):
         except Exception as ex:
             if n in reg:
                 viol("C06", f"identifier {n!r} is in the registry but rejected by the models: {type(ex).__name__}", {"metric": n})
+    # ... and through each model's `distance` option
+    from opfython.models.supervised import SupervisedOPF
+    from opfython.models.semi_supervised import SemiSupervisedOPF
+    from opfython.models.knn_supervised import KNNSupervisedOPF
+    from opfython.models.unsupervised import UnsupervisedOPF
+    for cls in (SupervisedOPF, SemiSupervisedOPF, KNNSupervisedOPF, UnsupervisedOPF):
+        for n in sorted(reg):
+            try:
+                m = cls(distance=n)
+                if m.distance != n or m.distance_fn is not reg[n]:
+                    viol("C06", f"{cls.__name__}(distance={n!r}) resolves to distance={m.distance!r} / a function that is not "
+                                f"DISTANCES[{n!r}]", {"metric": n, "model": cls.__name__})
+            except Exception as ex:
+                viol("C06", f"{cls.__name__}(distance={n!r}) raised {type(ex).__name__}", {"metric": n, "model": cls.__name__})
+        try:
+            cls(distance="__no_such_metric__")
+            viol("C06", f"{cls.__name__} accepts an identifier that is not in the registry", {"model": cls.__name__})
+        except Exception:
+            pass
+        res.hit("model_option_checked")
     if sorted(accepted) != sorted(reg) or sorted(reg) != sorted(A.TABLE):
         viol("C06", f"accepted identifiers / registry / reference table differ: "
                     f"{sorted(set(accepted) ^ set(reg))} {sorted(set(reg) ^ set(A.TABLE))}", {})
@@ -91,9 +111,34 @@ def run(rng, tier, res=None, metrics=None):
         dom, sym, nn, zs, tri = A.TABLE.get(name, ("pos", 0, 0, 0, 0))
         for c in range(per):
             d = rng.choice([1, 2, 3, 4, 5, 7, 8, 9, 12])
-            special = rng.choice([None, None, None, "zeros", "lattice", "equal", "parallel"])
+            special = rng.choice([None, None, None, "zeros", "lattice", "equal", "parallel", "near", "poszero"])
             x = gen_vec(rng, d, dom, special)
-            if special == "equal":
+            if special == "poszero":
+                # zero-containing non-negative vectors: what avoid_zero_division exists for (finiteness only)
+                x = [abs(v) for v in x]; y = [abs(v) for v in gen_vec(rng, d, dom)]
+                mode = rng.randrange(3)
+                if mode == 0:
+                    x[rng.randrange(d)] = 0.0
+                elif mode == 1:
+                    x = [0.0] * d; y = [0.0] * d
+                else:
+                    t = rng.randrange(d); x[t] = 0.0; y[t] = 0.0
+                try:
+                    vz = float(fn(np.array(x), np.array(y)))
+                    if not np.isfinite(vz):
+                        viol("C08", f"{name} returned {vz!r} on zero-containing non-negative vectors", {"metric": name, "x": x, "y": y})
+                except Exception as ex:
+                    viol("C08", f"{name} raised {type(ex).__name__} on zero-containing non-negative vectors", {"metric": name, "x": x, "y": y})
+                res.hit("poszero_finite_checked")
+                continue
+            if special == "near":
+                # coordinates that differ only in the last few bits / by 1e-9 relative
+                # relative differences around the usual tolerance constants (1e-12 … 1e-5, incl. just above/below)
+                y = [v * (1 + rng.choice([0, 1e-12, 1e-9, -1e-9, 1e-8, 1e-6, 1e-5, 1.00001e-5, 0.99999e-5, -1.00001e-5]))
+                     if rng.random() < 0.7 else v + rng.choice([1e-9, 1e-8, 1.1e-8]) for v in x]
+                if dom == "prob":
+                    y = gen_vec(rng, d, dom)
+            elif special == "equal":
                 y = list(x)
             elif special == "parallel":
                 lam = rng.choice([2.0, 0.5, 3.0])
@@ -137,6 +182,11 @@ def run(rng, tier, res=None, metrics=None):
             # C08 finite / symmetric / non-negative / zero-self / triangle
             if not np.isfinite(v1):
                 viol("C08", f"{name} returned {v1!r} (not finite) on its domain", meta)
+                try:
+                    ref = float(A.closed(name, x, y))
+                    viol("C06", f"{name}: implementation {v1!r} differs from the closed form {ref!r}", meta)
+                except Exception:
+                    pass
                 continue
             scale = max(1.0, abs(v1))
             if sym:
